@@ -37,7 +37,7 @@ build_harness() {
   if [ -f /repo/Cargo.lock ]; then cp /repo/Cargo.lock Cargo.lock.repo || true; fi
   # cargo's rustc probe has been seen to fail transiently under load: retry
   for attempt in 1 2 3; do
-    cargo build --offline </dev/null > "$ROOT/_build/harness_build.log" 2>&1 && break
+    true | cargo build --offline > "$ROOT/_build/harness_build.log" 2>&1 && break
     grep -q "to learn about target-specific information" "$ROOT/_build/harness_build.log" || break
     sleep $attempt
   done
